@@ -11,7 +11,7 @@ use std::collections::HashSet;
 
 use proc_macro_error::abort;
 use syn::{ Ident, Signature, Meta } ;
-use crate::{error, model::{check_path_set, get_idents, get_list, ActorAttributeArguments, ConstVars}};
+use crate::{error, model::{check_path_set, expect_word, get_idents, get_list, ActorAttributeArguments, ConstVars}};
 
 #[derive(Debug,Clone)]
 pub enum FilterSet {
@@ -25,6 +25,8 @@ impl FilterSet {
         
         if let Some(meta_list) = get_list( meta,None ) {
             check_path_set(&meta_list,None);
+            // method names only
+            for m in meta_list.iter(){ expect_word(m,Some(error::FILTER_OPTION_USE_HELP)); }
             let idents = get_idents(&meta_list);
             // checking for mentions of `new` or `try_new` 
             for ident in  idents.iter(){
